@@ -130,19 +130,28 @@ def check(mod, prop, tier, seed, t0):
             print("FAIL", f["key"], str(f["msg"])[:400])
     # generated twins: kernels regenerated from /repo's current source, compared inside Lean with the hand model
     # on an exhaustive small scope (module attribute TWIN_CHECKS: list of driver requests)
-    twin_results, twin_diffs = [], []
+    twin_results, twin_diffs, twin_bad = [], [], []
     if model_ok and getattr(mod, "TWIN_CHECKS", None):
         try:
             for req, r in zip(mod.TWIN_CHECKS, core.run_driver(list(mod.TWIN_CHECKS))):
                 twin_results.append({"request": req, "response": _trim(r, 400)})
                 if "bad" in r:
-                    continue                      # twin unavailable (syntax outside the translator's subset): not a violation
+                    # twin unavailable (syntax outside the translator's subset / an idiom the interpreter does not
+                    # model): recorded, not a violation.  Any other rejection is a malformed request: tool failure.
+                    if not str(r["bad"]).startswith("twin unavailable"):
+                        twin_bad.append(f"{req.get('op')}: {r['bad']}")
+                    continue
                 if r.get("disagreements"):
                     twin_diffs.append(f"twin {req['op']}: regenerated kernel disagrees with the hand model: {r['disagreements'][:2]}")
                 if r.get("memory_errors"):
                     twin_diffs.append(f"twin {req['op']} {req.get('fn')}: index/unbound errors under checked Python semantics: {r.get('memory_error_samples')}")
         except core.ToolFailure as e:
             model_ok, model_problem = False, str(e)
+    if twin_bad:
+        raise core.ToolFailure(f"TWIN_CHECKS request rejected by the driver: {twin_bad[0]}")
+    if os.environ.get("VERIF_DEBUG"):
+        for t in twin_diffs[:10]:
+            print("TWIN-DIFF", t[:800])
     if herr:
         raise core.ToolFailure(f"harness error in impl worker: {herr[0][1]}\n{herr[0][2]}")
     new_fails = [(i, f) for i, f in fails if f["key"] not in known]
